@@ -85,6 +85,8 @@ package keeper
 //@ ensures C16/expired-prices-are-removed: allOf(listed, p, !priceExpired(p, params, ctx) || !has(ctx, "oracle:types.PriceKey", p.Asset, p.Source, p.Timestamp))
 //@ ensures C16/live-prices-are-kept: allOf(listed, p, priceExpired(p, params, ctx) || has(ctx, "oracle:types.PriceKey", p.Asset, p.Source, p.Timestamp))
 //@ ensures C16/nothing-is-added: has(ctx, "oracle:types.PriceKey", a, s, t) ==> old(has(ctx, "oracle:types.PriceKey", a, s, t))
+//@ nopanic
+//@ ensures C18/end-block-completes: true
 
 // ---- who writes prices ----------------------------------------------------------------------------
 // Besides the two feed handlers (feeder checks above), prices are written only at genesis, by
@@ -92,3 +94,4 @@ package keeper
 //@ func (Keeper).SetPrice
 //@ callers C16/price-writers: (msgServer).FeedPrice, (msgServer).FeedMultiplePrices, InitGenesis, (Keeper).MigrateAllLegacyPrices, (IBCModule).handleOraclePacket
 //@ ensures C16/set-stores-under-own-key: snd(k.GetPrice(ctx, price.Asset, price.Source, price.Timestamp))
+
